@@ -9,6 +9,7 @@ MD = os.path.join(VERIF, "mutants")
 res_p = os.path.join(MD, "RESULTS.json")
 results = json.load(open(res_p)) if os.path.exists(res_p) else {}
 sel = sys.argv[1:]
+HEAD = subprocess.check_output(["git", "-C", "/repo", "rev-parse", "--short", "HEAD"], text=True).strip()
 lane, of = 0, 1
 if sel and "/" in sel[0] and sel[0].replace("/", "").isdigit():  # "k/n": every n-th patch starting at k
     lane, of = map(int, sel[0].split("/"))
@@ -19,6 +20,8 @@ for fn in sorted(os.listdir(MD)):
         continue
     _n += 1
     if _n % of != lane:
+        continue
+    if os.environ.get("MUT_SKIP_DONE") and results.get(fn, {}).get("repo_head") == HEAD and results[fn].get("caught"):
         continue
     pid = fn.split("-")[0]
     if sel and not any(fn.startswith(s) for s in sel):
